@@ -123,6 +123,16 @@ def function(ip: Interp, fn: PyConst, args, kwargs, n):
         if spec is None:
             return ip.as_str(value, n)
         return ip.w.uf('py_format', z3.StringSort(), z3.StringSort(), z3.StringSort())(ip.as_str(value, n), ip.as_str(spec, n))
+    if name == 'display_width':
+        # tatsu.util.strtools.unicode_display_len: the sum of a per-character width -- an uninterpreted function of the string
+        # that is additive over concatenation (instances recorded where strings are built, see Interp.str_concat)
+        (x,) = args
+        ip.w.assumptions.add('unicode_display_len(text) is modelled as an uninterpreted non-negative function of the text that is additive over '
+                             'concatenation (it is a sum over the characters); instances are generated for every string the verified code builds; '
+                             'sampled against the real function by the bounded run of C13')
+        return ip.width_of(x, n)
+    if name in ('min', 'max') and len(args) == 1 and isinstance(args[0], GenExp):
+        return _extremum(ip, args[0], name == 'max', n)
     if name in ('min', 'max'):
         if len(args) == 1:
             ip.oos(f'{name} of an iterable', n)
@@ -631,6 +641,8 @@ def isinstance_(ip: Interp, x, c, n):
 
 def _isinstance1(ip, x, cc: PyConst, n):
     name = cc.name
+    if isinstance(x, ArrList):
+        return name == 'list'
     CS = S.UNIONS.get('ColorSpec')
     if CS is not None and z3.is_expr(x) and x.sort() == CS:
         if name == 'RGB':
@@ -798,6 +810,37 @@ def quantify(ip: Interp, g, universal: bool, n):
     if universal:
         return z3.ForAll(ks, z3.Implies(guard, body))
     return z3.Exists(ks, z3.And(guard, body))
+
+
+def _extremum(ip: Interp, g, is_max: bool, n):
+    """max()/min() of an int-valued generator expression with one `for`: a fresh integer that bounds every element and is
+    attained by one (Skolem index); an empty iterable raises ValueError (safety obligation)"""
+    node = g.node
+    owner: Interp = g.interp
+    if len(node.generators) != 1 or node.generators[0].ifs:
+        ip.oos('max/min over a filtered or nested generator', n)
+    gen = node.generators[0]
+
+    def elem_at(idx):
+        sub = Interp(ip.p, owner.module, dict(owner.env), spec=True, cls=owner.cls, fname=owner.fname + '<genexp>')
+        sub.contract = owner.contract
+        seqv = sub.ev(gen.iter)
+        ln, getter = owner.iter_access(seqv, n)
+        sub.assign(gen.target, getter(idx))
+        return ln, sub.as_int(sub.ev(node.elt), n)
+
+    k = z3.FreshConst(z3.IntSort(), 'x')
+    ln, ek = elem_at(k)
+    if not ip.spec:
+        ip.p.oblige('safety', ln > 0, n, 'max()/min() of a non-empty iterable (ValueError)', tag='safety')
+    m = ip.p.fresh('extremum', z3.IntSort())
+    wit = ip.p.fresh('attained_at', z3.IntSort())
+    _, ew = elem_at(wit)
+    ax = z3.ForAll([k], z3.Implies(z3.And(k >= 0, k < ln), (ek <= m) if is_max else (ek >= m)))
+    ip.p.path_axioms.append(ax)
+    ip.p.pc.append(ax)
+    ip.p.assume(z3.Implies(ln > 0, z3.And(wit >= 0, wit < ln, ew == m)))
+    return m
 
 
 def _unused_quantify_tail(k, guard, body, universal):
